@@ -458,7 +458,14 @@ pub fn write_jv(v: &RVal, ch: &mut Ch) -> JV {
                 } else {
                     "-INF"
                 };
-                return JV::Obj(permute(vec![kind("number"), ("val".into(), JV::Str(t.into()))], ch));
+                let mut members = vec![kind("number"), ("val".into(), JV::Str(t.into()))];
+                if let Some(ids) = unit {
+                    if !ids.is_empty() {
+                        let i = ch.pick(ids.len());
+                        members.push(("unit".into(), JV::Str(ids[ids.len() - 1 - i].clone())));
+                    }
+                }
+                return JV::Obj(permute(members, ch));
             }
             match unit {
                 None => {
